@@ -297,11 +297,11 @@ fn nested_loops(report: &Report, max_len: usize, three: bool) {
                 offset: None,
                 reversed: false,
                 body: vec![
-                    text("{"),
+                    text("#"),
                     Stmt::Out(Expr::var("m")),
                     Stmt::Out(Expr::path("forloop", &["parentloop", "parentloop", "index"])),
                     if_(Cond::Bin(Expr::var("m"), Op::Eq, Expr::int(2)), vec![Stmt::Break], None),
-                    text("}"),
+                    text("$"),
                 ],
                 else_: Some(vec![text("e3")]),
             });
